@@ -107,7 +107,7 @@ ToIsoStr(d, sec) == LET c == Gmtime(d)
 Years == IF Level = 0 THEN {0, 1899, 1900, 1969, 1970, 1972, 2000, 2001, 2038, 2100, 2106, 2107, 9999}
          ELSE {0, 1, 999, 1000, 1899, 1900, 1901, 1904, 1968, 1969, 1970, 1971, 1972, 1973, 1999, 2000, 2001, 2004, 2016, 2037, 2038, 2039,
                2096, 2099, 2100, 2101, 2104, 2105, 2106, 2107, 2400, 9999}
-Months == IF Level = 0 THEN {0, 1, 2, 3, 4, 12, 13} ELSE 0..13 \cup {19, 20, 99}
+Months == IF Level = 0 THEN 0..13 ELSE 0..13 \cup {19, 20, 99}     \* every month in both levels: each has its own table entry (C13r7_A)
 DaysS == IF Level = 0 THEN {0, 1, 28, 29, 30, 31, 32} ELSE 0..32 \cup {39, 40, 99}
 Hours == IF Level = 0 THEN {0, 23, 24} ELSE {0, 1, 9, 10, 19, 20, 23, 24, 99}
 Mins == IF Level = 0 THEN {0, 59, 60} ELSE {0, 1, 9, 10, 59, 60, 61, 99}
